@@ -563,6 +563,7 @@ func (d *Driver) loop(ctx context.Context) {
 	for sc.Kind == "script" && scriptPos < len(sc.Script) && sc.Script[scriptPos] == "RESTART" {
 		scriptPos++
 	}
+	waited := 0
 	idle := 0 // consecutive iterations without any environment step or progress
 	for it := 0; it < maxIter; it++ {
 		d.res.Iter = it
@@ -578,8 +579,15 @@ func (d *Driver) loop(ctx context.Context) {
 					}
 					if i := d.findJob(a[2:], a[0] == 'E'); i >= 0 {
 						d.doEnv(a[:2] + strconv.Itoa(i))
+						waited = 0
+					} else if waited < 12 {
+						// the real run loop needs more passes than the model's
+						// finer-grained steps: run loop iterations until the job exists
+						waited++
+						break
 					} else {
 						d.res.Notes = append(d.res.Notes, "script step not possible: "+a)
+						waited = 0
 					}
 					scriptPos++
 				}
